@@ -87,12 +87,15 @@ fn unpack_header(buf: &[u8]) -> (r: Result<Header, SError>) { unimplemented!() }
 
 //@ extract sst/src/lib.rs | fn corruption_header_size_exceeds_max
 //@ external-body
+//@ optional
 //@ end
 //@ extract sst/src/lib.rs | fn corruption_entry_size_exceeds_max
 //@ external-body
+//@ optional
 //@ end
 //@ extract sst/src/lib.rs | fn corruption_true_up_exceeds_header_max
 //@ external-body
+//@ optional
 //@ end
 
 spec fn is_boundary(x: int) -> bool { x % 1048576 == 0 }
@@ -171,12 +174,15 @@ struct LogIterator { input: Input, buffer: Vec<u8>, buffer_idx: usize }
 //@ end
 //@ extract sst/src/lib.rs | fn corruption_crc_checksum_failed
 //@ external-body
+//@ optional
 //@ end
 //@ extract sst/src/lib.rs | fn corruption_truncation_no_second_header
 //@ external-body
+//@ optional
 //@ end
 //@ extract sst/src/lib.rs | fn corruption_invalid_discriminant
 //@ external-body
+//@ optional
 //@ end
 
 // `self.buffer.resize(n, 0); let buffer = &mut self.buffer[start..]; io_result(self.input.read_exact(buffer))?;`
